@@ -286,12 +286,21 @@ mod compat {
     use codespan_reporting::files::SimpleFile;
 
     pub fn position_to_offset(file: &SimpleFile<&str, &str>, pos: &lsp_types::Position) -> usize {
+        use codespan_reporting::files::Files;
+        // the protocol allows positions behind the end of a line (and behind the last line):
+        // they denote the end of that line (of the document)
+        let Ok(line) = file.line_range((), pos.line as usize) else {
+            return file.source().len();
+        };
         codespan_lsp::position_to_byte_index(
             file,
             (),
             &lsp_types_old::Position::new(pos.line, pos.character),
         )
-        .unwrap()
+        .unwrap_or_else(|_| {
+            let text = &file.source()[line.clone()];
+            line.start + text.trim_end_matches(['\r', '\n']).len()
+        })
     }
 
     pub fn span_to_range(file: &SimpleFile<&str, &str>, span: &Span) -> lsp_types::Range {
